@@ -167,11 +167,11 @@ func resolveWLGen(p *core.Program) (*wlGen, string) {
 	core.Instrs(fn, func(in ssa.Instruction) {
 		switch x := in.(type) {
 		case *ssa.MakeMap:
-			if x.Type().String() == "map[int]bool" {
+			if x.Type().Underlying().String() == "map[int]bool" {
 				g.capMap = x
 			}
 		case *ssa.MakeSlice:
-			if x.Type().String() == "[]bool" {
+			if x.Type().Underlying().String() == "[]bool" {
 				g.capMap = x
 			}
 		case *ssa.Call:
